@@ -416,12 +416,13 @@ package bus
 // handler back only on the cancel path, never after the queue was closed under it — otherwise it
 // would remove whichever subscriber has been given the slot since.
 //@ func (c *client) Subscribe$3(id int)
-//@   tags C13
+//@   tags C13 C11
 //@   opt recv_nonnil yes
 //@   requires c != nil && queue != nil && !queue.chseen && c.endpoint != nil && events != nil && !events.chclosed && !events.chowned && allocated(events) && allocated(queue) && ref(queue) != ref(abort)
 //@   modifies everything
 //@   call RemoveHandler#1: assert[C13] !queue.chseen
 //@   call RemoveHandler#1: assert[C13] arg0 == id
+//@   ensures[C11] events.chclosed
 //@   loop 1:
 //@     invariant c != nil && queue != nil && !queue.chseen && c.endpoint != nil && events != nil && !events.chclosed && !events.chowned && ref(queue) != ref(abort)
 
@@ -814,3 +815,28 @@ package bus
 //@   ensures !s.contextsMutex.lockw
 //@   loop 1:
 //@     invariant s.contextsMutex.lockw && s.contexts != nil
+
+// ---- connection loss seen from the client (C11)
+// Subscriptions: the filter of client.Subscribe selects exactly the messages of (service, object,
+// action) and removes itself only on an Error message (C13); the fan-out goroutine closes the
+// subscriber's channel on every way out (queue closed by the endpoint, or cancel) (C11).
+//@ func (c *client) Subscribe$2(hdr *net.Header) (matched bool, keep bool)
+//@   tags C13 C11
+//@   requires hdr != nil
+//@   pure
+//@   ensures[C13] matched <==> (hdr.Service == serviceID && hdr.Object == objectID && hdr.Action == actionID)
+//@   ensures[C13,C11] keep <==> !(matched && hdr.Type == 3)
+// Disconnect callbacks: the handler registered by OnDisconnect never matches and never removes
+// itself, and its close callback is exactly the user's callback; with C17 (a registered handler is
+// closed exactly once) the callback fires exactly once when the connection goes away.
+//@ func (c *client) OnDisconnect$1(hdr *net.Header) (matched bool, keep bool)
+//@   tags C11
+//@   pure
+//@   ensures[C11] !matched && keep
+//@ func (c *client) OnDisconnect(closer func(error)) (err error)
+//@   tags C11
+//@   requires c.endpoint != nil
+//@   modifies everything
+//@   ensures[C11] err == nil
+//@   ensures[C11] closer != nil ==> c.endpoint.nhandlers == old(c.endpoint.nhandlers) + 1
+//@   ensures[C11] closer == nil ==> c.endpoint.nhandlers == old(c.endpoint.nhandlers)
